@@ -6,6 +6,7 @@ import (
 	"encoding/hex"
 	"fmt"
 	"math/rand"
+	"strings"
 	"time"
 
 	"github.com/tonkeeper/tongo/boc"
@@ -119,7 +120,17 @@ func concretise(cs *Case, r *rand.Rand, now int64) (*built, error) {
 		x := r.Uint32()
 		sub = &x
 	}
-	owner, err := acctAt(cs.Ver, randSeed(r), wc, sub, r)
+	ownerSeed := randSeed(r)
+	if strings.HasPrefix(cs.Tamper, "ck_pad31") {
+		// a key pair whose public key begins with a zero byte: as an integer it has 31 significant bytes
+		for {
+			if _, pub := keyFromSeed(ownerSeed); pub[0] == 0 && pub[1] != 0 {
+				break
+			}
+			ownerSeed = randSeed(r)
+		}
+	}
+	owner, err := acctAt(cs.Ver, ownerSeed, wc, sub, r)
 	if err != nil {
 		return nil, err
 	}
@@ -242,6 +253,34 @@ func concretise(cs *Case, r *rand.Rand, now int64) (*built, error) {
 		}
 	}
 
+	// ---- what the account answers to get_public_key (rows ck_<answer>_<signature>)
+	forgeKey := []byte(owner.pub)
+	if strings.HasPrefix(t, "ck_") && cs.Src == "chain" && len(s.chain) == 1 {
+		var v []byte
+		switch strings.Split(t, "_")[1] {
+		case "zero":
+		case "one":
+			v = []byte{1}
+		case "short":
+			if r.Intn(3) == 0 {
+				v = []byte{0x80} // as 32 bytes 00..0080: the other point of order 4
+			} else {
+				v = make([]byte, 1+r.Intn(23))
+				r.Read(v)
+				v[0] |= 1
+			}
+		case "pad24":
+			v = make([]byte, 24)
+			r.Read(v)
+			v[0] |= 1
+			keys["chain"] = hex.EncodeToString(append(make([]byte, 8), v...))
+		case "pad31":
+			v = owner.pub[1:]
+		}
+		s.chain[0].Key = hex.EncodeToString(v)
+		forgeKey = append(make([]byte, 32-len(v)), v...)
+	}
+
 	// ---- the proof
 	var p *tonconnect.Proof
 	signer := hex.EncodeToString(s.signKey.Public().(ed25519.PublicKey))
@@ -272,6 +311,23 @@ func concretise(cs *Case, r *rand.Rand, now int64) (*built, error) {
 		}
 	}
 
+	if t == "sig_degenerate" || strings.HasSuffix(t, "_degenerate") {
+		// nobody signs. The attacker writes R of small order, S = 0, and looks for a payload / a timestamp within the lifetime
+		// for which that verifies under the key the server will use (it can, if that key is itself of small order)
+		ident, _ := hex.DecodeString(smallOrderR[0])
+		p.Proof.Signature = base64.StdEncoding.EncodeToString(append(ident, make([]byte, 32)...))
+		for try := 0; try < 64; try++ {
+			ts, pl := s.ts, s.newPayload(r, s.secret, s.pt)
+			if cs.Time == "fresh" {
+				ts = s.ts - int64(try%8)
+			}
+			if sig, ok := forgeFor(forgeKey, tcMessage(s.addr.Workchain, s.addr.Address[:], s.domain, ts, pl)); ok {
+				p.Proof.Timestamp, p.Proof.Payload, p.Proof.Signature = ts, pl, sig
+				break
+			}
+		}
+		signer = ""
+	}
 	if cs.Kind == "bag" {
 		bag, err := hex.DecodeString(cs.Boc)
 		if err != nil {
